@@ -884,6 +884,42 @@ func genTwoChildBig(g *tr.G, n, β int, pat byte, cmp string) {
 	b.emit(tags...)
 }
 
+// genDeleteRebuildBig: the delete-side rebuild of a big tree: the peak n is chosen so that the threshold
+// (n*β+1000)/2000 is thr; grown to n, drained by Remove until the rebuild fires with about thr keys
+// left (the removals around the threshold one macro each, every observer after them), drained further,
+// regrown.
+func genDeleteRebuildBig(g *tr.G, thr, β int, pat byte, cmp string) {
+	r := g.R
+	n := (thr*2000 - 1000 + β - 1) / β
+	if n < thr+2 || n > 8192 {
+		return
+	}
+	b := newBig(g, cmp)
+	t := b.New(β)
+	lo := r.Range(-n, 5)
+	b.op('A', t, ks{pat: pat, lo: lo, step: 2, n: n, rep: 1, take: n, seed: r.Intn(1 << 30)})
+	dpat := tr.Pick(r, []byte{'a', 'd', 'z', 'i', 'r'})
+	seed := r.Intn(1 << 30)
+	b.op('D', t, ks{pat: dpat, lo: lo, step: 2, n: n, rep: 1, take: n - thr - 1, seed: seed})
+	idx := orderIdx(dpat, n, seed)
+	for _, j := range idx[n-thr-1 : min(n, n-thr+2)] {
+		b.op('D', t, ks{pat: 'e', list: []int{lo + 2*j}})
+	}
+	b.op('Q', t, seqOf('a', lo, 2, n))
+	b.After(t, probeSeq(r, lo, 2, n, 6), r.Range(0, 5))
+	b.Inorder(t, r.Range(0, thr))
+	var more []int
+	for _, j := range idx[min(n, n-thr+2):min(n, n-thr+2+thr/3)] {
+		more = append(more, lo+2*j)
+	}
+	if len(more) > 0 && len(more) <= 400 {
+		b.op('D', t, ks{pat: 'e', list: more})
+	}
+	b.op('P', t, ks{pat: 'r', lo: lo, step: 1, n: 2 * n, rep: 1, take: min(2*n, 200), seed: r.Intn(1 << 30)})
+	b.op('A', t, seqOf(tr.Pick(r, []byte{'a', 'z'}), lo+2*n, 1, min(thr, 400)))
+	b.emit("big-delete-rebuild-at", sizeTag(thr), fmt.Sprintf("big-beta=%d", β))
+}
+
 // genScale: sizes 2^k-1, 2^k, 2^k+1; every balance factor of scaleBetas comes round, the loose ones
 // (long legitimate paths) with the adversarial orders.
 func genScale(g *tr.G) {
@@ -928,6 +964,22 @@ func genScale(g *tr.G) {
 				genBulkBig(g, nb, β, bp[0], rep, scaleCmp(r))
 				if n <= g.Scale(1025, 4097) {
 					genCoarseBig(g, n, nextBeta())
+				}
+			}
+		}
+	}
+	// the delete-side rebuild leaving 2^k-2 .. 2^k+1 keys: every scale in the thorough tier, one small
+	// and one big scale per balance factor in the quick tier
+	for _, β := range []int{155, 250, 500, 800, 880, 950, 999, 1000} {
+		small, bigk := 5+r.Intn(4), 9+r.Intn(3)
+		for k := 5; k <= 11; k++ {
+			if !g.Thorough() && k != small && k != bigk {
+				continue
+			}
+			one := r.Intn(4)
+			for i, thr := range []int{1<<k - 1, 1 << k, 1<<k + 1, 1<<k + 2} {
+				if g.Thorough() || k == small || i == one {
+					genDeleteRebuildBig(g, thr, β, tr.Pick(r, []byte{'r', 'r', 'a', 'd', 'z'}), scaleCmp(r))
 				}
 			}
 		}
